@@ -205,6 +205,81 @@ func c20d1(ctx *Ctx) {
 				}
 			})
 	}
+	// ---- stdlib calls on tuples whose TYPE shares its element-type array with another tuple type (what slice() and concat()
+	// themselves hand out: a sub-slice with spare capacity): a later call must not write through that array (a seeded
+	// change let concat's Type callback append onto the leading tuple's own TupleElementTypes() slice)
+	{
+		base := func() cty.Value { return cty.UnknownVal(cty.Tuple([]cty.Type{cty.String, cty.Number, cty.Bool})) }
+		extras := [][]cty.Value{{str("x")}, {cty.True}, {num(1), str("y")}}
+		c20d1run(ctx, "concat onto a slice of an unknown tuple: the source tuple's type must stay what it was",
+			"b := UnknownVal(Tuple{string,number,bool}); s, _ := stdlib.Slice(b, 0, 1); stdlib.Concat(s, TupleVal{\"x\"}); b.Type()", "",
+			func(o *c20d1obs) func() {
+				b := base()
+				other := cty.NullVal(b.Type())
+				o.vals = append(o.vals, b, other)
+				o.tys = append(o.tys, b.Type())
+				var slices []cty.Value
+				for k := int64(0); k <= 2; k++ {
+					for n := k; n <= 3; n++ {
+						var sl cty.Value
+						if p, _ := try(func() { sl, _ = stdlib.Slice(b, num(k), num(n)) }); p || sl == cty.NilVal {
+							continue
+						}
+						slices = append(slices, sl)
+						o.vals = append(o.vals, sl)
+					}
+				}
+				return func() {
+					for _, sl := range slices {
+						for _, ex := range extras {
+							try(func() { stdlib.Concat(sl, cty.TupleVal(ex)) })
+							try(func() { stdlib.ConcatFunc.ReturnType([]cty.Type{sl.Type(), cty.TupleVal(ex).Type()}) })
+						}
+					}
+				}
+			})
+		c20d1run(ctx, "two concats onto one unknown tuple: the first result's type must stay what it was",
+			"b := UnknownVal(Tuple{string,number}); r1, _ := stdlib.Concat(b, TupleVal{\"x\"}); stdlib.Concat(b, TupleVal{true}); stdlib.Concat(r1, TupleVal{1}); r1.Type()", "",
+			func(o *c20d1obs) func() {
+				b := cty.UnknownVal(cty.Tuple([]cty.Type{cty.String, cty.Number}))
+				r1, _ := stdlib.Concat(b, cty.TupleVal([]cty.Value{str("x")}))
+				r2, _ := stdlib.Concat(r1, cty.TupleVal([]cty.Value{num(7)}))
+				o.vals = append(o.vals, b, r1, r2)
+				o.tys = append(o.tys, b.Type(), r1.Type(), r2.Type())
+				return func() {
+					for _, ex := range extras {
+						try(func() { stdlib.Concat(b, cty.TupleVal(ex)) })
+						try(func() { stdlib.Concat(r1, cty.TupleVal(ex)) })
+						try(func() { stdlib.Concat(r2, cty.TupleVal(ex)) })
+						try(func() { stdlib.Concat(r1, cty.TupleVal(ex), r2) })
+					}
+				}
+			})
+		// the same sources through the other sequence / collection functions that take tuples
+		c20d1run(ctx, "sequence functions on derived unknown tuples: sources and earlier results must stay what they were",
+			"b := UnknownVal(Tuple{string,number,bool}); s := slice(b,0,2); reverse / element / flatten / coalescelist / setproduct / chunklist / length / contains / index on b and s", "",
+			func(o *c20d1obs) func() {
+				b := base()
+				sl, _ := stdlib.Slice(b, num(0), num(2))
+				o.vals = append(o.vals, b, sl)
+				o.tys = append(o.tys, b.Type(), sl.Type())
+				return func() {
+					for _, v := range []cty.Value{b, sl} {
+						v := v
+						try(func() { stdlib.Reverse(v) })
+						try(func() { stdlib.Element(v, num(1)) })
+						try(func() { stdlib.Flatten(cty.TupleVal([]cty.Value{v, v})) })
+						try(func() { stdlib.CoalesceList(v, cty.TupleVal([]cty.Value{str("z")})) })
+						try(func() { stdlib.SetProduct(v, cty.TupleVal([]cty.Value{str("z")})) })
+						try(func() { stdlib.Chunklist(v, num(1)) })
+						try(func() { stdlib.Length(v) })
+						try(func() { stdlib.Contains(v, str("a")) })
+						try(func() { stdlib.Index(v, num(0)) })
+						try(func() { convert.Convert(v, cty.List(cty.String)) })
+					}
+				}
+			})
+	}
 	// ---- marks with paths
 	c20d1run(ctx, "UnmarkDeepWithPaths: write the mark sets and paths it returns",
 		`v := ObjectVal{a: "x".Mark("m"), b: [1.Mark("n")]}.Mark("top"); _, pvm := v.UnmarkDeepWithPaths(); pvm[i].Marks["zz"] = struct{}{}; pvm[i].Path[0] = GetAttrStep{"zz"}`, "",
